@@ -271,6 +271,15 @@ impl Drop for St {
     }
 }
 
+/// Run `f` on a thread of its own (the library's per-thread scratch state in its initial condition) and hand back its
+/// result; a panic inside is re-raised here so that it is classified like any other.
+pub fn on_new_thread<T: Send + 'static>(f: impl FnOnce() -> T + Send + 'static) -> T {
+    match std::thread::spawn(f).join() {
+        Ok(x) => x,
+        Err(e) => std::panic::resume_unwind(e),
+    }
+}
+
 pub fn s(chars: &[char]) -> String {
     chars.iter().collect()
 }
